@@ -3,7 +3,7 @@ import random, re
 from collections import Counter
 import common, e2e, gen, pool, drv
 
-THEOREMS = ["equiv_norm3_sound", "symExec_conc", "norm3_sound"]
+THEOREMS = ["equiv_norm3_sound", "symExec_conc", "norm3_sound", "Cmp.cmp_sound"]
 
 SUBST = [("SUB", "ADD"), ("DIV", "SDIV"), ("SDIV", "DIV"), ("MOD", "SMOD"), ("SMOD", "MOD"), ("LT", "SLT"), ("SLT", "LT"),
          ("GT", "SGT"), ("SGT", "GT"), ("LT", "GT"), ("SHR", "SAR"), ("SAR", "SHR"), ("SHL", "SHR"), ("AND", "OR"),
@@ -133,7 +133,7 @@ def multiset_pairs():
 def run(tier):
     sd = common.seed()
     rng = random.Random(sd * 31337 + 5)
-    po = common.proof_obligations("GasolVerif.Proofs.NormSound", THEOREMS)
+    po = common.proof_obligations("GasolVerif.Proofs.NormSound,GasolVerif.Proofs.CmpSound", THEOREMS)
     violations = [{"kind": "broken-proof-obligation", "what": b, "no_failing_input": True, "input": b} for b in po["broken"]]
     n = 500 if tier == "quick" else 8000
     blocks = gen.blocks(sd * 977 + 11, n, max_snippets=6)
@@ -159,6 +159,45 @@ def run(tier):
     for g in groups.values():
         res.extend(pool.run_tasks(g, timeout=25, nproc=6))
     c = Counter()
+    # the checker's term comparison against its Lean model (Models/Cmp.lean): compare_target_stack and compare_variables on a grid of
+    # variable pairs, for the specifications of the same pairs of blocks
+    cmp_tasks = [{"kind": "cmp", "a": t["a"], "b": t["b"], "opts": t["opts"], "timeout": 40} for t in tasks if t["mut"] != "reflexive"]
+    if tier == "quick":
+        fixed = [t for t in cmp_tasks if False]
+        cmp_tasks = cmp_tasks[:400] + cmp_tasks[-400:]
+    cgroups = {}
+    for t in cmp_tasks:
+        cgroups.setdefault(tuple(t["opts"]), []).append(t)
+    cres = []
+    for g in cgroups.values():
+        cres.extend(pool.run_tasks(g, timeout=40, nproc=6))
+    creqs, cmeta = [], []
+    for t, r, st in cres:
+        if st != "ok" or r is None or "harness_error" in (r or {}) or "exception" in (r or {}):
+            c["cmp-run:" + (st if st != "ok" else "front-end-exception")] += 1
+            continue
+        for e in r["subs"]:
+            creqs.append("CMP\t%s\t%s\t%s" % (e["O"], e["P"], ";".join(e["pairs"])))
+            cmeta.append((t, e))
+    for o, (t, e) in zip(drv.batch(creqs), cmeta):
+        parts = o.split(" ")
+        if parts[0].startswith("error"):
+            raise common.MachineryError("driver CMP: " + o)
+        ok, target, rest = parts[0], parts[1], parts[2:]
+        c["cmp-specification-pairs"] += 1
+        c["cmp-premises-" + ("hold" if ok == "1" else "fail")] += 1
+        real = [e["target"]] + e["pair_results"]
+        real = ["raise" if x == "recursion" else x for x in real]
+        model = [target] + rest
+        c["cmp-decisions-compared"] += len(real)
+        c["cmp-decisions-equal:" + e["target"]] += 1
+        if real != model:
+            k = next(i for i in range(min(len(real), len(model))) if real[i] != model[i]) if len(real) == len(model) else -1
+            which = "compare_target_stack" if k == 0 else ("compare_variables(%s)" % e["pairs"][k - 1] if k > 0 else "result lists of different length")
+            violations.append({"kind": "checker-differs-from-model", "input": t["a"] + " | " + t["b"], "options": t["opts"], "no_failing_input": True,
+                               "what": "correspondence Models/Cmp.lean <-> sfs_verify broken on the specifications of %s | %s (%s): %s gives %s, the model %s "
+                                       "(theorem Cmp.cmp_sound is about the model)" % (t["a"], t["b"], t["opts"], which, real[k] if k >= 0 else len(real), model[k] if k >= 0 else len(model)),
+                               "specs": [e["O"], e["P"]]})
     pairs = []
     for t, r, st in res:
         if st != "ok" or r is None or "harness_error" in (r or {}):
@@ -204,6 +243,11 @@ def run(tier):
             raise common.MachineryError("validator/driver inconsistency: %s" % p)
         elif len(samples) < 5:
             samples.append({"a": p["text"], "b": p["mutant"], "mutation": p["mut"], "checker": "equal", "lean": p["verdict"]})
+    # a correspondence break carries a failing input when the same pair is accepted although a state distinguishes it
+    witnessed = {v["input"] for v in violations if v["kind"] in ("checker-accepts-distinguishable", "checker-not-reflexive", "checker-raises")}
+    for v in violations:
+        if v["kind"] == "checker-differs-from-model" and v["input"] in witnessed:
+            v["no_failing_input"] = False
     cov = {"obligations": po["obligations"], "discharged": po["discharged"],
            "checker_cmd": "cd lean && lake build GasolVerif gvdrv; #print axioms " + ", ".join(THEOREMS),
            "trusted_base": ["Lean 4.33 kernel", "axioms: propext, Classical.choice, Quot.sound", "Evm.lean as EVM semantics",
